@@ -40,6 +40,11 @@ func stateAnnotation(s *Scanner, c byte) *jerr.JApiError {
 func stateMultilineAnnotationTextStart(s *Scanner, c byte) *jerr.JApiError {
 	s.foundAt(s.curIndex, AnnotationBegin)
 	s.step = stateMultilineAnnotation
+	if c == AnnotationDelimiterPart {
+		// "/*/": this slash is the first byte of the text, the asterisk before it
+		// belongs to the opening delimiter and cannot close the annotation.
+		return nil
+	}
 	return stateMultilineAnnotation(s, c)
 }
 
